@@ -98,7 +98,9 @@ fn plain_type(u: &mut Unstructured) -> u16 {
         7 => CNAME,
         8 => DS,
         9 => NS,
-        10 => [DNSKEY, NSEC3PARAM][pick(u, 2)],
+        // types that normally live at a zone apex only; at any other name
+        // they are ordinary data (SOA: a stray or merged-in child apex SOA)
+        10 => [DNSKEY, NSEC3PARAM, SOA][pick(u, 3)],
         11..=13 => UNKNOWN_POOL[pick(u, UNKNOWN_POOL.len())],
         14 => {
             // any code without a concrete variant: stay clear of the
@@ -114,6 +116,7 @@ fn plain_type(u: &mut Unstructured) -> u16 {
 fn rdata_for(u: &mut Unstructured, t: u16, near: &Labels) -> Rd {
     match t {
         A => Rd::A([192, 0, 2, byte(u)]),
+        SOA => Rd::Soa { serial: u32_(u), minimum: ttl(u) },
         AAAA => {
             let mut a = [0u8; 16];
             a[0] = 0x20;
@@ -154,10 +157,15 @@ impl Builder {
         wire_len(n) <= 255 && n.iter().all(|l| !l.is_empty() && l.len() <= 63)
     }
     fn add(&mut self, u: &mut Unstructured, owner: &Labels, t: u16) {
-        if !self.fits(owner) || t == SOA || t == RRSIG || t == NSEC || t == 50 {
+        if !self.fits(owner) || t == RRSIG || t == NSEC || t == 50 {
             return;
         }
         let key = (lower(owner), t);
+        // exactly one SOA at the apex (placed by gen_zone); elsewhere at most
+        // one SOA record per owner (a SOA RRset is a single record)
+        if t == SOA && (name_eq(owner, &self.apex) || self.ttls.contains_key(&key)) {
+            return;
+        }
         let ttl = match self.ttls.get(&key) {
             Some(t) => *t,
             None => {
@@ -196,11 +204,40 @@ impl Builder {
     }
 }
 
+/// A name that is NOT at or below `n` although its wire format ends in the
+/// wire format of `n`: the first k labels of `n`, length octets included, are
+/// the tail of one longer label (`x\007example.com` for `example.com`,
+/// `ns0<48 octets>.example` for `<48 octets>.example`, `x\001a\001b` for
+/// `a.b`). The prefix pool steers it to sort after / before `n`'s subtree.
+fn lookalike(u: &mut Unstructured, n: &Labels, after: bool) -> Option<Labels> {
+    if n.is_empty() {
+        return None;
+    }
+    let k = [1usize, 1, 1, 2, 3][pick(u, 5)].min(n.len());
+    let mut tail = vec![];
+    for l in &n[..k] {
+        tail.push(l.len() as u8);
+        tail.extend_from_slice(l);
+    }
+    let pre: &[&[u8]] = if after { &[b"zz", b"~", b"\xff", b"x", b"ns"] } else { &[b"\x00", b"-", b"0", b"a", b"A"] };
+    let mut l = pre[pick(u, pre.len())].to_vec();
+    if l.len() + tail.len() > 63 {
+        l.truncate(1);
+    }
+    l.extend_from_slice(&tail);
+    if l.len() > 63 {
+        return None;
+    }
+    let mut out = vec![l];
+    out.extend_from_slice(&n[k..]);
+    Some(out)
+}
+
 /// Sizes depend on the input only (not on the tier) so that a replay file
 /// decodes to the same zone in every tier; about one case in 16 is "big".
 pub fn gen_zone(u: &mut Unstructured, allow_class: bool) -> Zone {
     let thorough = byte(u) >= 240;
-    let apex: Labels = match pick(u, 10) {
+    let apex: Labels = match pick(u, 11) {
         0 | 1 => vec![b"example".to_vec()],
         2 => vec![b"example".to_vec(), b"com".to_vec()],
         3 => vec![],
@@ -217,7 +254,12 @@ pub fn gen_zone(u: &mut Unstructured, allow_class: bool) -> Zone {
         }
         7 => vec![label(u), label(u)],
         8 => vec![b"b".to_vec(), b"m".to_vec()],
-        _ => vec![b"m".to_vec()],
+        9 => vec![b"m".to_vec()],
+        _ => {
+            // first label whose length octet is an ASCII digit or '-'
+            let n = [48usize, 45, 49, 53, 57][pick(u, 5)];
+            vec![vec![b'a'; n], b"example".to_vec()]
+        }
     };
     let apex = if wire_len(&apex) > 222 { vec![b"example".to_vec()] } else { apex };
     let class = if allow_class && byte(u) >= 232 { [3u16, 4, 254, 2][pick(u, 4)] } else { 1 };
@@ -260,14 +302,28 @@ pub fn gen_zone(u: &mut Unstructured, allow_class: bool) -> Zone {
                 if chance(u, 110) {
                     b.add(u, &cut, DS);
                 }
-                if chance(u, 70) {
+                let cb = byte(u);
+                if cb < 70 {
                     let t = [A, AAAA, TXT, MX, 1234, 65280, DNSKEY][pick(u, 7)];
                     b.add(u, &cut, t);
+                } else if cb < 104 {
+                    // the child's apex records merged into the parent's data:
+                    // SOA next to the NS, sometimes more apex-only types
+                    b.add(u, &cut, SOA);
+                    match pick(u, 4) {
+                        0 => b.add(u, &cut, DNSKEY),
+                        1 => b.add(u, &cut, NSEC3PARAM),
+                        2 => {
+                            b.add(u, &cut, DNSKEY);
+                            b.add(u, &cut, NSEC3PARAM);
+                        }
+                        _ => {}
+                    }
                 }
                 for _ in 0..pick(u, 4) {
                     let d = [1usize, 1, 2][pick(u, 3)];
                     let g = b.child(u, &cut, d);
-                    let t = [A, A, AAAA, TXT, NS, DS, 1234, CNAME][pick(u, 8)];
+                    let t = [A, SOA, AAAA, TXT, NS, DS, 1234, CNAME, A][pick(u, 9)];
                     b.add(u, &g, t);
                 }
             }
@@ -310,7 +366,9 @@ pub fn gen_zone(u: &mut Unstructured, allow_class: bool) -> Zone {
             13 | 14 => {
                 // out-of-zone record (only when the apex is not the root)
                 if !apex.is_empty() {
-                    let n: Labels = match pick(u, 9) {
+                    let n: Labels = match pick(u, 12) {
+                        9 | 10 => lookalike(u, &apex, true).unwrap_or_default(),
+                        11 => lookalike(u, &apex, false).unwrap_or_default(),
                         0 => apex[1..].to_vec(),
                         1 => vec![],
                         2 => {
@@ -355,7 +413,7 @@ pub fn gen_zone(u: &mut Unstructured, allow_class: bool) -> Zone {
                         }
                     };
                     if !ends_with(&n, &apex) {
-                        let t = [A, NS, TXT, 1234, DS, AAAA][pick(u, 6)];
+                        let t = [A, NS, TXT, 1234, DS, AAAA, SOA][pick(u, 7)];
                         b.add(u, &n, t);
                     }
                 }
@@ -385,10 +443,38 @@ pub fn gen_zone(u: &mut Unstructured, allow_class: bool) -> Zone {
                 // something below an existing cut
                 if !b.cuts.is_empty() {
                     let c = b.cuts[pick(u, b.cuts.len())].clone();
-                    let d = 1 + pick(u, 2);
-                    let g = b.child(u, &c, d);
-                    let t = [A, NS, TXT, 65280, DS, AAAA][pick(u, 6)];
-                    b.add(u, &g, t);
+                    match pick(u, 4) {
+                        0 => {
+                            // an authoritative sibling of the cut whose wire
+                            // form ends in the cut's wire form (not below it)
+                            let after = chance(u, 200);
+                            if let Some(n) = lookalike(u, &c, after) {
+                                // sometimes only as an empty non-terminal
+                                let n = if pick(u, 3) == 2 { b.child(u, &n, 1) } else { n };
+                                if ends_with(&n, &apex) {
+                                    let t = plain_type(u);
+                                    b.add(u, &n, t);
+                                }
+                            }
+                        }
+                        d => {
+                            let g = b.child(u, &c, d.min(2));
+                            let t = [A, NS, TXT, 65280, DS, AAAA][pick(u, 6)];
+                            b.add(u, &g, t);
+                        }
+                    }
+                } else if b.names.len() > 1 {
+                    // the same for an ordinary name (ancestor tracking of the
+                    // NSEC3 ENT walk uses the same "is below" test)
+                    let c = b.names[1 + pick(u, b.names.len() - 1)].clone();
+                    let after = chance(u, 200);
+                    if let Some(n) = lookalike(u, &c, after) {
+                        let n = if pick(u, 3) == 2 { b.child(u, &n, 1) } else { n };
+                        if ends_with(&n, &apex) {
+                            let t = plain_type(u);
+                            b.add(u, &n, t);
+                        }
+                    }
                 }
             }
             18 => {
@@ -455,6 +541,38 @@ pub struct Analysis {
     pub last_is_nonauth: bool,
     pub shared_ent: bool,
     pub nested_ent: bool,
+    /// SOA at an authoritative owner other than the apex (a delegation point
+    /// or an ordinary name); the generators read every SOA they walk over, so
+    /// for such zones TTLs are not judged (the statement does not cover them)
+    pub soa_at_cut: bool,
+    pub soa_at_plain: bool,
+    pub soa_below_cut: bool,
+    pub soa_out_of_zone: bool,
+    /// DNSKEY / NSEC3PARAM owned by an authoritative non-apex, non-cut name
+    pub apex_only_type_at_plain: bool,
+    /// out-of-zone owners whose wire form ends in the apex's wire form
+    /// although they are not below the apex (tail starts inside a label)
+    pub unaligned_before: usize,
+    pub unaligned_after: usize,
+    /// the first owner after the zone is such a look-alike
+    pub first_trailing_is_unaligned: bool,
+    /// the same shape inside the zone: an authoritative owner whose wire form
+    /// ends in the wire form of a cut / of another owner it is not below
+    pub lookalike_of_cut: bool,
+    pub lookalike_follows_cut: bool,
+    pub lookalike_of_owner: bool,
+    /// an empty non-terminal with that shape
+    pub lookalike_ent: bool,
+}
+
+/// Octet-wise (case-insensitive) suffix of the wire forms without being a
+/// label-wise suffix.
+pub fn unaligned_suffix(n: &Labels, base: &Labels) -> bool {
+    if ends_with(n, base) {
+        return false;
+    }
+    let (w, b) = (to_wire(&lower(n)), to_wire(&lower(base)));
+    w.len() > b.len() && w[w.len() - b.len()..] == b[..]
 }
 
 pub fn ancestors_within(n: &Labels, apex: &Labels) -> Vec<Labels> {
@@ -473,17 +591,31 @@ pub fn analyse(z: &Zone) -> Analysis {
     let mut owners: BTreeMap<Canon, Owner> = BTreeMap::new();
     let mut spellings: BTreeMap<Canon, BTreeSet<Labels>> = BTreeMap::new();
     let (mut before, mut after) = (0, 0);
+    let (mut unaligned_before, mut unaligned_after) = (0, 0);
+    let mut soa_out_of_zone = false;
+    let mut first_trailing: Option<Canon> = None;
     for r in &z.recs {
         if ends_with(&r.owner, &z.apex) {
             let c = Canon::of(&r.owner);
             owners.entry(c.clone()).or_default().types.insert(r.rtype);
             spellings.entry(c).or_default().insert(r.owner.clone());
-        } else if canon_cmp(&r.owner, &z.apex) == std::cmp::Ordering::Less {
+            continue;
+        }
+        soa_out_of_zone |= r.rtype == SOA;
+        let ua = !z.apex.is_empty() && unaligned_suffix(&r.owner, &z.apex);
+        if canon_cmp(&r.owner, &z.apex) == std::cmp::Ordering::Less {
             before += 1;
+            unaligned_before += ua as usize;
         } else {
             after += 1;
+            unaligned_after += ua as usize;
+            let c = Canon::of(&r.owner);
+            if first_trailing.as_ref().map(|f| c < *f).unwrap_or(true) {
+                first_trailing = Some(c);
+            }
         }
     }
+    let first_trailing_is_unaligned = first_trailing.map(|f| unaligned_suffix(&f.0, &z.apex)).unwrap_or(false);
     let cut_names: BTreeSet<Canon> = owners.iter().filter(|(n, o)| **n != apexc && o.types.contains(&NS)).map(|(n, _)| n.clone()).collect();
     let mut n_nonauth = 0;
     for (n, o) in owners.iter_mut() {
@@ -520,6 +652,36 @@ pub fn analyse(z: &Zone) -> Analysis {
         }
     }
     let shared_ent = ent_children.values().any(|s| s.len() >= 2);
+    let soa_at_cut = owners.values().any(|o| o.is_cut && o.types.contains(&SOA));
+    let soa_at_plain = owners.values().any(|o| o.authoritative && !o.is_cut && !o.is_apex && o.types.contains(&SOA));
+    let soa_below_cut = owners.values().any(|o| !o.authoritative && o.types.contains(&SOA));
+    let apex_only_type_at_plain = owners.values().any(|o| o.authoritative && !o.is_cut && !o.is_apex && (o.types.contains(&DNSKEY) || o.types.contains(&NSEC3PARAM)));
+    let (mut lookalike_of_cut, mut lookalike_follows_cut, mut lookalike_of_owner, mut lookalike_ent) = (false, false, false, false);
+    {
+        let auth: Vec<(&Canon, &Owner)> = owners.iter().filter(|(_, o)| o.authoritative).collect();
+        let wires: Vec<Vec<u8>> = auth.iter().map(|(n, _)| to_wire(&n.0)).collect();
+        for e in &ents_all {
+            let we = to_wire(&e.0);
+            if auth.iter().enumerate().any(|(j, (c, co))| !co.is_apex && we.len() > wires[j].len() && we.ends_with(&wires[j]) && unaligned_suffix(&e.0, &c.0)) {
+                lookalike_ent = true;
+            }
+        }
+        for (i, (n, _)) in auth.iter().enumerate() {
+            for (j, (c, co)) in auth.iter().enumerate() {
+                if i != j && !co.is_apex && wires[i].len() > wires[j].len() && wires[i].ends_with(&wires[j]) && unaligned_suffix(&n.0, &c.0) {
+                    lookalike_of_owner = true;
+                    if co.is_cut {
+                        lookalike_of_cut = true;
+                        // authoritative owners are in canonical order and the
+                        // names below a cut are not in `auth`
+                        if i == j + 1 {
+                            lookalike_follows_cut = true;
+                        }
+                    }
+                }
+            }
+        }
+    }
     let last_is_nonauth = owners.iter().next_back().map(|(_, o)| !o.authoritative).unwrap_or(false);
     let case_variants = spellings.values().any(|s| s.len() > 1);
     Analysis {
@@ -533,10 +695,27 @@ pub fn analyse(z: &Zone) -> Analysis {
         last_is_nonauth,
         shared_ent,
         nested_ent,
+        soa_at_cut,
+        soa_at_plain,
+        soa_below_cut,
+        soa_out_of_zone,
+        apex_only_type_at_plain,
+        unaligned_before,
+        unaligned_after,
+        first_trailing_is_unaligned,
+        lookalike_of_cut,
+        lookalike_follows_cut,
+        lookalike_of_owner,
+        lookalike_ent,
     }
 }
 
 impl Analysis {
+    /// TTLs are judged only when the apex SOA is the only SOA the generators
+    /// walk over (SOAs below a cut or outside the zone are never looked at).
+    pub fn ttl_judged(&self) -> bool {
+        !self.soa_at_cut && !self.soa_at_plain
+    }
     pub fn auth_owner(&self, n: &Labels) -> Option<&Owner> {
         self.owners.get(&Canon::of(n)).filter(|o| o.authoritative)
     }
